@@ -725,8 +725,14 @@ class XsdAttributeGroup(
                     context.validation_error(validation, self, reason, obj)
                     continue
             else:
-                if xsd_attribute.use == 'prohibited' and \
-                        (None not in self or not self._attribute_group[None].is_matching(name)):
+                if xsd_attribute.use != 'prohibited':
+                    pass
+                elif None in self._attribute_group and \
+                        self._attribute_group[None].is_matching(name):
+                    # A prohibited use is not an attribute use: the wildcard governs
+                    xsd_attribute = self._attribute_group[None]
+                    value = (name, value)
+                else:
                     reason = _("use of attribute %r is prohibited") % name
                     context.validation_error(validation, self, reason, obj)
 
